@@ -643,13 +643,16 @@ func (h *Hook) proc() (ok bool) {
 	var keys, vals []string
 	var ttls []time.Duration
 	start := time.Now()
+	// the name as it reads back from a queued notification: encoding replaces
+	// bytes that are not valid UTF-8
+	queuedName := gjson.Parse(jsonString(h.Name)).String()
 	err := h.db.Update(func(tx *buntdb.Tx) error {
 		// get keys and vals
 		err := tx.AscendGreaterOrEqual("hooks",
 			h.query, func(key, val string) bool {
 				if strings.HasPrefix(key, hookLogPrefix) {
 					// Verify this hooks name matches the one in the notif
-					if h.Name == gjson.Get(val, "hook").String() {
+					if queuedName == gjson.Get(val, "hook").String() {
 						keys = append(keys, key)
 						vals = append(vals, val)
 					}
